@@ -238,3 +238,7 @@ def run(P, chk, tier):
     C04.zero_entries(P, chk)
     amount_set_partial(P, chk)
     file_order(P, chk)
+    # the balance an assertion is compared with also receives the inferred amounts: exactly the recorded ones
+    from . import C03 as _c03
+    chk.rule(_c03.R_DED, "an inferred posting adds to the running balance exactly the amount recorded on that posting (shared with C03)")
+    _c03.deduced_amount(P, chk)
